@@ -1407,7 +1407,18 @@ def run_inspector_balance(tier, log, seed):
             inconcl.append(f"{fname}: MIR not found")
             continue
         seen_ctor, helpers = set(), set()
-        for f in roots:
+        # functions of this crate (by last path segment) that hand back a FrameOrResult: a frame function may delegate to them
+        fr_helpers = {}
+        for n, fl in funcs.items():
+            for f in fl:
+                if "FrameOrResult" in (f.ret or "") and "make_" not in n and "{closure" not in n and "FrameOrResult::" not in n and "FrameOrResult>::" not in n:
+                    fr_helpers.setdefault(n.split("::")[-1], []).append(f)
+        work, done = list(roots), set()
+        while work:
+            f = work.pop()
+            if id(f) in done:
+                continue
+            done.add(id(f))
             for b in f.blocks.values():
                 c = callee_of(b.term or "")
                 if not c:
@@ -1415,13 +1426,14 @@ def run_inspector_balance(tier, log, seed):
                 m = re.search(r"FrameOrResult::new_(\w+?)_(result|frame)$", c[1])
                 if m:
                     seen_ctor.add(m.group(1))
-                elif re.search(r"EvmContext::<.*>::\w+$|evm_context::\w+$", c[3].split("(")[0]) and "make_" not in c[1]:
-                    helpers.add(c[1].split("::")[-1])
-        for hname in helpers:
-            for n, fl in funcs.items():
-                if n.endswith("::" + hname):
-                    for m in re.finditer(r"FrameOrResult::new_(\w+?)_(result|frame)\(", fl[0].text):
-                        seen_ctor.add(m.group(1))
+                    continue
+                last = c[1].split("::")[-1]
+                if last in fr_helpers and "make_" not in last:
+                    helpers.add(last)
+                    work.extend(fr_helpers[last])
+            # variants written out by hand: FrameOrResult::Result(FrameResult::<Kind>(..)) / Frame::<Kind>(..)
+            for m in re.finditer(r"FrameResult::(Call|Create|EOFCreate)\(|Frame::(Call|Create|EOFCreate)\(", f.text):
+                seen_ctor.add((m.group(1) or m.group(2)).lower())
         wrong = sorted(k for k in seen_ctor if k != kind)
         term = "false" if wrong else "true"
         v, model, detail = duo.check(["(declare-const x Bool)"], [f"(not {term})"])
